@@ -99,6 +99,13 @@ def programs(tier):
         for d2 in [["dep", "int", p] for p in ("p1", "p2")] + ["int", "O"]:
             ms = [M(0, xk, {"x": "O", "k": d1}), M(1, xk, {"x": "O", "k": d2}), M(2, xk, {"x": "O", "k": "O"}, -1)]
             yield "iv:keyword-only", ms, [("kw", v) for v in ("0", "1", "2", "'a'")]
+    # (vi) Literal types (value-dependent too) mixed with each other and with Dependent: overlapping ones tie on the shared value
+    lpool = [["lit", 0], ["lit", 0, 1], ["lit", 1, 2], ["lit", 2], ["lit", 1, "a"], ["dep", "int", "p3"], ["dep", "int", "p6"], "int", "O", "str"]
+    for L in (2, 3):
+        for combo in itertools.combinations(lpool, L):
+            if all(isinstance(c, str) for c in combo):
+                continue
+            yield "vi:literal-mixtures", [M(i, x, {"x": c}) for i, c in enumerate(combo)], ivals
     # (v) union of two dependent types with different bounds
     for pi in ("p1", "p3", "p6"):
         for po in ("qa", "qb"):
